@@ -199,4 +199,81 @@ theorem strat_dead (k : EvenSt OSt) (c : Nat) (hst : k.strategy = (c : Int)) (ht
     exact hdK
 end Strat
 
+
+section While
+variable (T : List (List Nat)) (tpep len : Nat) (oracle : Nat → Bool) (fuel : Nat) (pl : Int) (M : Nat)
+
+/-- the inner `while` dies when the hand model's `whileLoop` faults -/
+theorem while_dead (H : Hyp T tpep len M fuel) (htl : T.length + len ≤ 18446744073709551616) (hfu1 : 1 ≤ fuel)
+    (j : Nat) (hj : j < (mkParams T tpep len).eHalf) :
+    ∀ (n f : Nat) (k : EvenSt OSt) (m : St), Rel (mkParams T tpep len) M j k m →
+      (mkParams T tpep len).row.length - m.strategy ≤ n →
+      (whileLoop (mkParams T tpep len) j m).err ≠ none →
+      Dead (whileF (EvenSt.live obs)
+          (fun s => match ec_eval_even_strategy_loop2_cond obs T tpep oracle fuel len pl s with | .ok b => b | .error _ => true)
+          (fun s => match ec_eval_even_strategy_loop2_cond obs T tpep oracle fuel len pl s with
+            | .ok _ => ec_eval_even_strategy_loop2_body obs T tpep oracle fuel len pl s | .error f => s.fail f)
+          (fun s => s.fail .fuel) f k) := by
+  intro n
+  induction n with
+  | zero =>
+    intro f k m R hn he
+    have hc := cond2_iff T tpep len oracle fuel pl M H j k m R hj
+    have hlive : EvenSt.live obs k = true := by simp [EvenSt.live, obs_ok, R.kf, R.kb]
+    by_cases hb : m.block = ((mkParams T tpep len).eHalf : Int) - 1 - (j : Int)
+    · rw [whileLoop_exit _ j m R.me hb] at he
+      exact absurd R.me he
+    · have hA : (match ec_eval_even_strategy_loop2_cond obs T tpep oracle fuel len pl k with
+          | .ok b => b | .error _ => true) = true := hc.trans (by simp [hb])
+      have hcond : (EvenSt.live obs k && (match ec_eval_even_strategy_loop2_cond obs T tpep oracle fuel len pl k with
+          | .ok b => b | .error _ => true)) = true := by rw [hlive, hA]; rfl
+      cases f with
+      | zero =>
+        simp only [whileF, hcond, if_true]
+        exact dead_of_fault _ .fuel rfl
+      | succ f' =>
+        rw [whileF_step _ _ _ _ _ _ hcond]
+        have hbody : (match ec_eval_even_strategy_loop2_cond obs T tpep oracle fuel len pl k with
+            | .ok _ => ec_eval_even_strategy_loop2_body obs T tpep oracle fuel len pl k | .error f => k.fail f) =
+            ec_eval_even_strategy_loop2_body obs T tpep oracle fuel len pl k := by
+          simp [ec_eval_even_strategy_loop2_cond]
+        rw [hbody]
+        have hd := strat_dead T tpep len oracle fuel pl k m.strategy R.st H.htp htl (by omega) hfu1
+        rw [whileF_dead _ _ _ _ _ hd]
+        exact hd
+  | succ n ih =>
+    intro f k m R hn he
+    have hc := cond2_iff T tpep len oracle fuel pl M H j k m R hj
+    have hlive : EvenSt.live obs k = true := by simp [EvenSt.live, obs_ok, R.kf, R.kb]
+    by_cases hb : m.block = ((mkParams T tpep len).eHalf : Int) - 1 - (j : Int)
+    · rw [whileLoop_exit _ j m R.me hb] at he
+      exact absurd R.me he
+    · have hA : (match ec_eval_even_strategy_loop2_cond obs T tpep oracle fuel len pl k with
+          | .ok b => b | .error _ => true) = true := hc.trans (by simp [hb])
+      have hcond : (EvenSt.live obs k && (match ec_eval_even_strategy_loop2_cond obs T tpep oracle fuel len pl k with
+          | .ok b => b | .error _ => true)) = true := by rw [hlive, hA]; rfl
+      cases f with
+      | zero =>
+        simp only [whileF, hcond, if_true]
+        exact dead_of_fault _ .fuel rfl
+      | succ f' =>
+        rw [whileF_step _ _ _ _ _ _ hcond]
+        have hbody : (match ec_eval_even_strategy_loop2_cond obs T tpep oracle fuel len pl k with
+            | .ok _ => ec_eval_even_strategy_loop2_body obs T tpep oracle fuel len pl k | .error f => k.fail f) =
+            ec_eval_even_strategy_loop2_body obs T tpep oracle fuel len pl k := by
+          simp [ec_eval_even_strategy_loop2_cond]
+        rw [hbody]
+        by_cases hs : m.strategy < (mkParams T tpep len).row.length
+        · by_cases hpe : (pushBody (mkParams T tpep len) m (mkParams T tpep len).row[m.strategy]).err = none
+          · rw [whileLoop_push _ j m R.me hb hs] at he
+            have R' := push_sim T tpep len oracle fuel pl M H j k m R hs hpe
+            exact ih f' _ _ R' (by simp only []; omega) he
+          · have hd := push_dead T tpep len oracle fuel pl M j k m R _ hpe
+            rw [whileF_dead _ _ _ _ _ hd]
+            exact hd
+        · have hd := strat_dead T tpep len oracle fuel pl k m.strategy R.st H.htp htl (by omega) hfu1
+          rw [whileF_dead _ _ _ _ _ hd]
+          exact hd
+end While
+
 end SqiProofs.SkelEvenConv
